@@ -60,20 +60,31 @@ def main():
                     k += 1
                     if k >= n:
                         break
-            print("%s %-16s %5.1fs" % (pid, ph.name, time.time() - t0), flush=True)
+            if "--json" not in sys.argv:
+                print("%s %-16s %5.1fs" % (pid, ph.name, time.time() - t0), flush=True)
     cov.stop()
     out = {}
     for f in sorted(cov.get_data().measured_files()):
         _, stmts, excl, missing, _ = cov.analysis2(f)
-        an = cov._analyze(f)
-        arcs = sorted(an.arcs_missing())
+        src = open(f).read().split("\n")
+        # module-level statements ran at import time, before measuring started
+        body_missing = []
+        for ln in missing:
+            text = src[ln - 1]
+            if text[:1] not in (" ", "\t"):
+                continue
+            if text.strip().startswith(("def ", "class ", "@", "import ", "from ")):
+                continue
+            body_missing.append(ln)
         rel = os.path.relpath(f, env.REPO)
-        out[rel] = dict(statements=len(stmts), missing_lines=missing,
-                        missing_arcs=[list(a) for a in arcs])
-        print("%-50s %4d stmts  missing lines: %s" % (rel, len(stmts), missing))
-        if arcs:
-            print("      missing arcs: %s" % arcs[:40])
-    json.dump(out, open(os.path.join(env.VERIF_DIR, "tools", "reach.json"), "w"), indent=1)
+        out[rel] = dict(statements=len(stmts), unreached_lines_in_function_bodies=body_missing,
+                        unreached_source=[src[ln - 1].strip()[:90] for ln in body_missing][:40])
+        if "--json" not in sys.argv:
+            print("%-50s %4d stmts  unreached body lines: %s" % (rel, len(stmts), body_missing))
+    if "--json" in sys.argv:
+        print("REACH-JSON " + json.dumps(out))
+    else:
+        json.dump(out, open(os.path.join(env.VERIF_DIR, "tools", "reach.json"), "w"), indent=1)
 
 if __name__ == "__main__":
     main()
